@@ -10,7 +10,15 @@
 3. Conformance: ConfusionNet_Trace!TNext accepts a recorded history iff every step satisfies the statement (StepOK) and the
    final clauses hold -> a rejection is a VIOLATION.  The same pass tracks whether every recorded network is also a result of the
    detailed pointer machine (AddResults); a property-satisfying history that leaves it is MODEL-DRIFT only.
+4. History and scale (same trace format, same clauses, judged by TLC like every other history):
+   - long-lived bags (cn_common.replay_reuse): ONE bag object grows and is exported after every add (in between: exports with
+     another weight pair, normalised exports, an export that fails), then is re-ordered with its own sort() and exported again;
+   - long-running process (cn_common.run_session): more than 1024 resp. more than 65 536 DISTINCT (network, hypothesis)
+     additions in one process, two failing calls, then the same additions again - every recorded addition must satisfy the
+     statement whatever the process did before.
 """
+import random
+
 from .. import cn_common as C
 
 LEVEL = "model_checking"
@@ -80,6 +88,47 @@ def nbest_histories(ctx, n):
     return out
 
 
+def session_specs(ctx):
+    """long-running processes: number of distinct (network, hypothesis) additions beyond 1024 / beyond 65 536 (the sizes at which a
+    bounded table, a 10-bit or a 16-bit index run out); rec1 / rec2 = histories recorded (and validated) in pass 1 / pass 2"""
+    quick = ctx.tier == "quick"
+    return [{"name": "1452-distinct", "alphabet": 3, "maxlen": 4, "bases": 12, "base_lens": [2, 3, 4], "seed": ctx.seed * 7 + 1,
+             "rec1": 60 if quick else 1452, "rec2": 400 if quick else 1000000, "head": 0.3},
+            {"name": "70928-distinct", "alphabet": 4, "maxlen": 4, "bases": 208, "base_lens": [3, 4, 4, 5], "seed": ctx.seed * 7 + 2,
+             "rec1": 30 if quick else 600, "rec2": 200 if quick else 3000, "head": 0.0625}]
+
+
+def _needs_sort(case):
+    """a bag whose sort() changes the order; not one with '' in front before or after (that history is the open known finding)"""
+    v = [h["vis"] for h in case["hyps"]]
+    front = [h for h in case["hyps"] if h["vis"] == max(v)][0]
+    return any(a < b for a, b in zip(v, v[1:])) and len(case["hyps"][0]["h"]) > 0 and len(front["h"]) > 0
+
+
+def reuse_nbest(rng, n):
+    """bags shaped like an n-best list with LM scores on some hypotheses, not in descending optical order; the transcripts of a
+    bag are pairwise different (an n-best list holds no transcript twice; an export that first merges equal transcripts is a
+    different chain of additions, on which the statement is silent beyond three short hypotheses)"""
+    out = []
+    while len(out) < n:
+        base = [rng.randint(1, 3) for _ in range(rng.randint(2, 4))]
+        hyps = []
+        for _ in range(rng.randint(3, 4)):
+            h = list(base)
+            if rng.random() < 0.7:
+                pos = rng.randint(0, len(h))
+                if rng.random() < 0.5 or not h:
+                    h.insert(pos, rng.randint(1, 3))
+                else:
+                    del h[min(pos, len(h) - 1)]
+            if h not in [g["h"] for g in hyps]:
+                hyps.append({"h": h, "vis": rng.randint(1, 3), "lm": rng.choice([0, 1, 2, 3])})
+        case = {"mode": "boh", "hyps": hyps, "vw": 1, "lw": 1}
+        if len(hyps) >= 3 and _needs_sort(case):
+            out.append(case)
+    return out
+
+
 def _sample(ctx, cases, frac):
     if frac >= 1.0:
         return cases, True
@@ -100,6 +149,34 @@ def signature(tr, prog):
     return ["normalize", "paths", "single-hypothesis", "done"][stage]
 
 
+def signature_of(tr, prog):
+    """histories on long-lived objects / in a long-running process get their own class (the known finding keeps its signature:
+    it is the same deviation wherever it shows)"""
+    sig = signature(tr, prog)
+    if sig == "add:first-hypothesis-empty":
+        return sig
+    if "session" in tr:
+        return "long-running-process:pass%d:%s" % (tr["session"]["pass"], sig)
+    if "reuse" in tr:
+        return "long-lived-bag:%s:%s" % (tr["reuse"]["kind"], sig)
+    return sig
+
+
+def _context(tr):
+    if "session" in tr:
+        s = tr["session"]
+        return ("[long-running process '%s': history %d of pass %d; before it the process executed %s distinct two-step histories%s] "
+                % (s["spec"]["name"], s["index"], s["pass"], "the first %d" % s["index"] if s["pass"] == 1 else "all",
+                   "" if s["pass"] == 1 else ", two failing calls and the histories of pass 2 before this one"))
+    if "reuse" in tr:
+        if tr["reuse"]["kind"] == "grow":
+            return "[ONE long-lived bag: add, export, add, export ... with other exports (other weights, normalised, one failing) in between] "
+        return ("[long-lived bag filled in the order %s, exported, re-ordered with sort(), exported again: last network and normalised "
+                "network are exports of that bag, the networks before from fresh bags] "
+                % [C.text_of(h["h"]) for h in tr["reuse"]["orig"]])
+    return ""
+
+
 def signature_later(tr, prog):
     step, stage = prog // 10, prog % 10
     if step < len(tr["hyps"]):
@@ -113,12 +190,12 @@ def describe(tr, prog):
     hs = [(C.text_of(h["h"]), C.score_of(h, tr["vw"], tr["lw"])) for h in tr["hyps"]]
     if step < n:
         prev = tr["nets"][step - 1] if step else []
-        return ("addition %d of history %s (%s): network %s -> %s does not keep the readable strings / make the new hypothesis "
+        return (_context(tr) + "addition %d of history %s (%s): network %s -> %s does not keep the readable strings / make the new hypothesis "
                 "readable in order / add the score to exactly one arc of every old position / keep the columns balanced"
                 % (step + 1, hs, tr["mode"], _show(prev), _show(tr["nets"][step]) if tr["outcome"][step] == "ok" else tr["outcome"][step]))
     what = ["normalize_cn: column sums / proportions", "sorted_cn_paths: not all arc combinations once, non-increasing, summing to 1",
             "network built from the single hypothesis does not read back", "?"][stage]
-    return "history %s (%s), final network %s: %s" % (hs, tr["mode"], _show(tr["nets"][-1]), what)
+    return _context(tr) + "history %s (%s), final network %s: %s" % (hs, tr["mode"], _show(tr["nets"][-1]), what)
 
 
 def _show(net):
@@ -129,10 +206,10 @@ def _show(net):
 DRIFT = 1000     # progress value of a history that satisfies the property but left the detailed model
 
 
-def judge(ctx, consts, traces, label):
+def judge(ctx, consts, traces, label, shards=None):
     consts = dict(consts, KnownEmptyFirst=False)
     acc, rej = ctx.validate("ConfusionNet_Trace", traces, constants=consts, label="ConfusionNet_Trace " + label,
-                            shards=max(1, min(4, len(traces) // 1500)))
+                            shards=shards or max(1, min(4, len(traces) // 1500)))
     # histories rejected at the open known finding are validated again with the deviation modelled as an action, so that the
     # rest of the history (later additions, normalisation, path enumeration) is still judged; what is rejected there is a
     # different violation and gets its own signature
@@ -154,7 +231,7 @@ def judge(ctx, consts, traces, label):
     for i in sorted(drifted):
         ctx.model_drift("network differs from the modelled pointer machine (property holds)", 1, {"hyps": traces[i]["hyps"]})
     # one representative of every signature first (only the first violations are printed / stored)
-    viol = [(idx, prog, signature(traces[idx], prog)) for idx, prog in rej if prog != DRIFT]
+    viol = [(idx, prog, signature_of(traces[idx], prog)) for idx, prog in rej if prog != DRIFT]
     viol += [(idx, prog, "after-empty-first:" + signature_later(traces[idx], prog)) for idx, prog in sorted(later.items())]
     seen, first, rest = set(), [], []
     for v in viol:
@@ -162,8 +239,9 @@ def judge(ctx, consts, traces, label):
         seen.add(v[2])
     for idx, prog, sig in first + rest:
         tr = traces[idx]
-        ctx.violation({"history": {"mode": tr["mode"], "hyps": tr["hyps"], "vw": tr["vw"], "lw": tr["lw"]}, "constants": _plain(consts),
-                       "progress": prog, "trace": tr}, sig, describe(tr, prog))
+        hist = {"mode": tr["mode"], "hyps": tr["hyps"], "vw": tr["vw"], "lw": tr["lw"]}
+        hist.update({k: tr[k] for k in ("session", "reuse") if k in tr})     # what replay() needs to rebuild the history before it
+        ctx.violation({"history": hist, "constants": _plain(consts), "progress": prog, "trace": tr}, sig, describe(tr, prog))
         ctx.notes.setdefault("rejections_by_signature", {}).setdefault(sig, 0)
         ctx.notes["rejections_by_signature"][sig] += 1
     return [tr for i, tr in enumerate(traces) if i not in rejected and i not in drifted]
@@ -176,7 +254,9 @@ def _plain(consts):
 def run(ctx):
     ctx.rule = ("every addition history of the bounded shape (strings over {a,b[,c]} up to length 2-3 including '', 2-4 additions, "
                 "scores 1-3; bags with/without LM scores through produce_cn_from_boh) replayed on the real confusion-network functions; "
-                "network after every addition validated by TLC; non-trivial = final network has > 1 column and a column with > 1 arc")
+                "network after every addition validated by TLC; long-lived bags (grown, exported repeatedly, re-ordered with sort(), "
+                "exported again) and long-running processes (> 1024 and > 65 536 distinct additions, failing calls, the same additions "
+                "again; sampled) judged by the same clauses; non-trivial = final network has > 1 column and a column with > 1 arc")
     ctx.exhaustive = True
     ctx.assume("scores are small positive integers (weights exact in floating point); symbols are single characters",
                "reading: 'no weight is lost' = every position's weights sum to the total score added so far",
@@ -211,8 +291,12 @@ def run(ctx):
             expect_violation="GrowOnly", label="ConfusionNet Legacy=TRUE (self-test)")
     ctx.tlc("ConfusionNet", constants=tla_constants(b0, skip_empty_first=False), invariants=[], properties=PROPS, workers=2,
             expect_violation="GrowOnly", label="ConfusionNet SkipEmptyFirst=FALSE (self-test)")
+    rrng = random.Random(ctx.seed * 31 + 14)          # own stream: the sampled cases of the other parts stay what they were
+    reuse_cases = []
     for b in boh_configs(ctx):
         cases = list(C.boh_histories(b["alphabet"], b["maxlen"], b["adds"], b["vis"], b["lms"], b["vw"], b["lw"]))
+        unsorted = [c for c in cases if _needs_sort(c)]
+        reuse_cases += rrng.sample(unsorted, min(len(unsorted), 50 if ctx.tier == "quick" else 700))
         cases, full = _sample(ctx, cases, b["frac"])
         traces = C.run_histories(cases)
         consts = tla_constants({"alphabet": b["alphabet"], "maxlen": b["maxlen"], "adds": b["adds"], "scores": [1]}, skip_empty_first=False)
@@ -227,13 +311,45 @@ def run(ctx):
     if good:
         ctx.sample({"config": "n-best", "trace": good[len(good) // 2]}, limit=6)
     ctx.notes["nbest_histories"] = len(traces)
+    # history and scale: long-lived bags (grown, exported repeatedly, re-ordered, exported again) and long-running processes
+    # (more distinct additions than 1024 / 65 536, failing calls, then the same additions again) - ordinary traces, ordinary clauses
+    reuse_cases += reuse_nbest(rrng, 30 if ctx.tier == "quick" else 400)
+    rtraces = [t for t in C.run_reuse(reuse_cases) if max(len(n) for n in t["nets"]) <= 9]
+    specs = session_specs(ctx)
+    straces = C.run_sessions(specs)
+    good = judge(ctx, tla_constants({"alphabet": 4, "maxlen": 7, "adds": 5, "scores": [1, 2, 3]}, skip_empty_first=False),
+                 rtraces + straces, "long-lived bags and long-running processes", shards=4)
+    for kind in ("reuse", "session"):
+        pick = [t for t in good if kind in t and (kind == "reuse" and t["reuse"]["kind"] == "resort" or kind == "session" and t["session"]["pass"] == 2)]
+        if pick:
+            ctx.sample({"config": "long-lived bag (resort)" if kind == "reuse" else "long-running process (pass 2)",
+                        "trace": pick[len(pick) // 2]}, limit=8)
+    ctx.notes["long_lived_bag_traces"] = {k: sum(1 for t in rtraces if t["reuse"]["kind"] == k) for k in ("grow", "resort")}
+    ctx.notes["long_running_sessions"] = [{"name": sp["name"], "distinct_histories_executed": len(C.session_pairs(sp)),
+                                           "recorded_pass1": sum(1 for t in straces if t["session"]["spec"]["name"] == sp["name"] and t["session"]["pass"] == 1),
+                                           "recorded_pass2": sum(1 for t in straces if t["session"]["spec"]["name"] == sp["name"] and t["session"]["pass"] == 2)}
+                                          for sp in specs]
+    ctx.assume("long-running process: in the sessions only a sample of the histories is recorded and validated (the others "
+               "are executed, exceptions among them are recorded); bags are re-ordered only through their own sort()")
     ctx.notes["explanation"] = ("TLC exhaustive on ConfusionNet per bounds (action property GrowOnly + invariants %s), two must-violate "
                                 "self-tests (Legacy, SkipEmptyFirst=FALSE); histories replayed on pero_ocr.decoding.confusion_networks and "
                                 "validated step by step by ConfusionNet_Trace (property level = verdict, detailed level = drift)" % INVS)
 
 
 def replay(ctx, case):
-    tr = C.replay_history(case["history"])
+    hist = case["history"]
+    if "session" in hist:       # the history of the process before this addition is part of the case: executed again, in this process
+        s = hist["session"]
+        tr = C.run_session(s["spec"], only=(s["pass"], s["index"]))[0]
+    elif "reuse" in hist:       # the long-lived bag is built up again from the order in which it was filled
+        kind = hist["reuse"]["kind"]
+        trs = [t for t in C.replay_reuse(dict(hist, hyps=hist["reuse"]["orig"])) if t["reuse"]["kind"] == kind]
+        if not trs:
+            ctx.notes["replay"] = "the '%s' trace could not be rebuilt (sort() / iteration of the bag not available)" % kind
+            return
+        tr = trs[0]
+    else:
+        tr = C.replay_history(hist)
     consts = dict(case["constants"])
     for k in ("Alphabet", "Scores"):
         consts[k] = set(consts[k])
